@@ -5,7 +5,46 @@ import re
 from .model import AnalysisError, call_name, enclosing_def, is_inf_literal, is_self_attr, loc, unparse
 from .paths import Walker, show_path
 
+from .anchors import ANCHOR_METHODS
+
 NODE_ROOT = "Node"
+
+
+def new_helper(ev):
+    """splice policy of the local walks: only self-calls to methods that are not part of the pinned API (newly extracted helpers)"""
+    return ev.d.get("meth") not in ANCHOR_METHODS
+
+
+def effective_names(program, ci, fn):
+    """the anchor method(s) on whose behalf `fn` runs: fn itself if it is an anchor, else the anchors that (transitively) self-call it"""
+    if fn.name in ANCHOR_METHODS or ci is None:
+        return {fn.name}
+    out, seen, todo = set(), set(), [fn.name]
+    while todo:
+        m = todo.pop()
+        if m in seen:
+            continue
+        seen.add(m)
+        for c in program.subclasses(ci.name):
+            for caller in self_callers(program.view(c), m):
+                if caller in ANCHOR_METHODS:
+                    out.add(caller)
+                else:
+                    todo.append(caller)
+    return out or {fn.name}
+
+
+def walk(program, view, fn, _depth=0):
+    """ast.walk over fn and, recursively, over newly extracted helpers it self-calls (nodes keep their own _parent chain)"""
+    for n in ast.walk(fn):
+        yield n
+        if (_depth < 4 and isinstance(n, ast.Call) and isinstance(n.func, ast.Attribute) and isinstance(n.func.value, ast.Name) and n.func.value.id == "self"
+                and n.func.attr not in ANCHOR_METHODS):
+            r = view.resolve(n.func.attr) if view is not None else None
+            if r is not None:
+                for m in walk(program, view, r[1], _depth + 1):
+                    yield m
+
 INS_OPS = {"append": "ins", "insert": "ins"}
 REM_OPS = {"remove": "rem", "pop": "rem"}
 OTHER_MUT = {"extend", "clear", "sort", "reverse"}
